@@ -1,0 +1,16 @@
+//go:build verif && amd64
+
+package sm4
+
+func VerifCryptoBlockAsmX16(rk *uint32, dst, src *byte) { cryptoBlockAsmX16(rk, dst, src) }
+func VerifEnsureCapacity(array []byte, asked int) []byte { return ensureCapacity(array, asked) }
+func VerifNeedExpand(array []byte, asked int) int       { return needExpand(array, asked) }
+func VerifCopyAsm(dst *byte, src *byte, n int)          { copyAsm(dst, src, n) }
+func VerifSealAsm(roundKeys *uint32, tagSize int, dst *byte, nonce, plaintext, additionalData []byte, temp *byte) {
+	sealAsm(roundKeys, tagSize, dst, nonce, plaintext, additionalData, temp)
+}
+func VerifOpenAsm(roundKeys *uint32, tagSize int, dst *byte, nonce, ciphertext, additionalData []byte, temp *byte) int {
+	return openAsm(roundKeys, tagSize, dst, nonce, ciphertext, additionalData, temp)
+}
+func VerifTranspose4x4(dst, src *uint32) { transpose4x4(dst, src) }
+func VerifTranspose1x4(dst, src *uint32) { transpose1x4(dst, src) }
